@@ -12,7 +12,7 @@ import (
 )
 
 func init() {
-	props["C03"] = &propImpl{files: []string{"h_lib.go", "h_pipe.go", "h_c03.go"}, run: runC03}
+	props["C03"] = &propImpl{files: []string{"h_lib.go", "h_pipe.go", "h_corpus.go", "h_c03.go"}, run: runC03}
 }
 
 // keyword -> token name (PHP manual: list of keywords / list of parser tokens)
@@ -460,11 +460,24 @@ func runC03(c *Check) error {
 			if !s.okFor(ver) {
 				continue
 			}
-			if !thorough && ver == "7.2" && s.Class == "pair" {
+			if !thorough && ver == "7.2" && (s.Class == "pair" || s.Class == "triple" || s.Class == "double") {
 				continue
 			}
 			add("H_C03_Accept", "baseline acceptance", ver, []string{tC(s.Src)}, map[string]interface{}{"origin": s.Origin}, "accepted")
 			nacc++
+		}
+	}
+	// (4b) ... and stay accepted, with the same tree, with any admissible trivia between their
+	//      tokens (white space of every newline style, comments, one-line comments ended by a
+	//      close tag): C08's harness on gaps sampled by token context
+	for _, ver := range []string{"7.4", "5.6"} {
+		tj, err := c.triviaJobs("H_C08", ver, tierEvery(c, 8, 2), thorough, 3_000_000, "")
+		if err != nil {
+			return err
+		}
+		for _, n := range tj {
+			n.Job.Tag = "acceptance with trivia"
+			needs = append(needs, n)
 		}
 	}
 	// (5) version gating with a symbolic version
